@@ -497,6 +497,14 @@ class BigTok(Tok):
         return 7
 
 
+class ExactTok(Tok):
+    """a root target whose repr fits a depth-0 'Target:' line exactly (nothing needs cutting)"""
+    WIDTH = [0]
+
+    def __repr__(self):
+        return 't0<' + 'x' * (self.WIDTH[0] - len(' - Target: ') - 4) + '>'
+
+
 class BadLenTok(BigTok):
     """... and whose __len__ fails (a closed / lazy collection)"""
     def __len__(self):
@@ -536,6 +544,13 @@ def execute(tree, plan, caller_scope=None, hook=True, prebuilt=None, big_root=Fa
             if big_root == 'deque':
                 import collections
                 root = collections.deque([Tok((0, 1)), Tok((0, 2)), 3, 4, 5, 6, 7, 8, 9])
+            elif big_root == 'true':
+                root = True
+            elif big_root == 'emptystr':
+                root = ''
+            elif big_root == 'exact':
+                root = object.__new__(ExactTok)
+                root.ident, root.eqclass = (0,), (0,)
             elif big_root:
                 root = object.__new__(BadLenTok if big_root == 'badlen' else BigTok)
                 root.ident, root.eqclass = (0,), (0,)
